@@ -7,20 +7,20 @@ What is modelled, function by function:
 * `StableHasher::write_*`            → `le k n`          (`to_le_bytes`, fixed width, usize = 8 bytes)
 * `write_f32` / `write_f64`          → `canonF32` / `canonF64` (every NaN becomes `f32::NAN`/`f64::NAN`)
 * `write_length_prefix`, `write_str` → `le 8 len ++ bytes`
-* `impl StableHash for …`            → `stream H t v pre` — the bytes the value feeds to the hasher
-                                        when the hasher has already absorbed `pre`
+* `impl StableHash for …`            → `stream absorb finish t v st` — the bytes the value feeds to
+                                        the hasher when the hasher is in state `st`
 * `impl StableHash for Discriminant` → `le dw disc`: the raw bytes of `mem::Discriminant<T>` are the
                                         little-endian discriminant value at the width of the enum's
                                         discriminant type (isize = 8 bytes unless `#[repr(..)]`)
 * derive(StableHash) struct / enum   → `Ty.tuple` / `Ty.enum`
-* HashMap/HashSet/BinaryHeap/Dash*   → `le 8 len ++ le 16 (Σ H(pre' ++ entry stream) mod 2^128)`,
+* HashMap/HashSet/BinaryHeap/Dash*   → `le 8 len ++ le 16 (Σ finish(absorb st' entry-stream) mod 2^128)`,
                                         `sub_hash` copies the hasher (state = function of the bytes
                                         absorbed so far), feeds the entry and finishes
 * `Sip128Hasher` (siphasher 1.0.1 `sip128::SipHasher`, keys 0/0) → `sip128`
-* `SeededStableHasherBuilder`        → `hash128 seed t v = sip128 (le 8 seed ++ stream …)`
+* `SeededStableHasherBuilder`        → `hash128 seed t v`
 
-The model is parameterised by the sub-hash function `H : Bytes → Nat`; the driver instantiates it with
-`sip128`, the theorems hold for every `H`.
+The model is parameterised by an abstract hasher (`σ`, `absorb`, `finish`); the driver instantiates it
+with the streaming SipHash state, the theorems hold for every hasher.
 
 Imports nothing outside core.
 -/
@@ -80,22 +80,6 @@ def sipAbsorb (s : SipState) : Bytes → SipState × Bytes
   | tail => (s, tail)
 
 def sipXor (s : SipState) : UInt64 := s.v0 ^^^ s.v1 ^^^ s.v2 ^^^ s.v3
-
-/-- `SipHasher::new()` (keys 0,0; the 128-bit variant's `v1 ^= 0xee` is folded into the constant),
-    `write(msg)`, `finish128()`, `u128::from(Hash128)` -/
-def sip128 (msg : Bytes) : Nat :=
-  let s0 : SipState :=
-    ⟨0x736f6d6570736575, 0x646f72616e646f83, 0x6c7967656e657261, 0x7465646279746573⟩
-  let (s, tail) := sipAbsorb s0 msg
-  let b : UInt64 := ((UInt64.ofNat msg.length &&& 0xff) <<< 56) ||| leWord tail
-  let s := sipAbsorbWord s b
-  let s := { s with v2 := s.v2 ^^^ 0xee }
-  let s := sipRound (sipRound (sipRound (sipRound s)))
-  let h1 := sipXor s
-  let s := { s with v1 := s.v1 ^^^ 0xdd }
-  let s := sipRound (sipRound (sipRound (sipRound s)))
-  let h2 := sipXor s
-  h1.toNat + 2 ^ 64 * h2.toNat
 
 /-! ## Type universe -/
 
@@ -284,15 +268,19 @@ def VarList.ordered : VarList → Bool
   | .cons _ fs rest => fs.ordered && rest.ordered
 end
 
-/-! ## The write stream -/
+/-! ## The write stream
+
+The hasher is abstract: a state `σ`, `absorb` (= `StableHasher::write`) and `finish`.  `sub_hash` copies the
+state, feeds the entry and finishes.  Two instances: `σ = Bytes`, `absorb = (· ++ ·)`, `finish = H` (the
+state *is* the bytes absorbed so far), and the streaming SipHash state `SipStream` used by the driver. -/
 
 section
-variable (H : Bytes → Nat)
+variable {σ : Type} (absorb : σ → Bytes → σ) (finish : σ → Nat)
 
 mutual
-/-- Bytes that `v.stable_hash(state)` writes when `state` has already absorbed `pre`.
+/-- Bytes that `v.stable_hash(state)` writes when the hasher is in state `st`.
     Ill-typed combinations give `[]`; the driver rejects them with `hasType` before calling this. -/
-def stream : Ty → Val → Bytes → Bytes
+def stream : Ty → Val → σ → Bytes
   | .int _ w, .int i, _ => le w.bytes (i % (2 : Int) ^ (8 * w.bytes)).toNat
   | .bool, .bool b, _ => [if b then 1 else 0]
   | .char, .char c, _ => le 4 c
@@ -301,44 +289,76 @@ def stream : Ty → Val → Bytes → Bytes
   | .unit, .unit, _ => []
   | .str, .str bs, _ => le 8 bs.length ++ bs
   | .option _, .none, _ => le 8 0
-  | .option t, .some v, pre => le 8 1 ++ stream t v (pre ++ le 8 1)
-  | .result t _, .ok v, pre => le 8 0 ++ stream t v (pre ++ le 8 0)
-  | .result _ e, .err v, pre => le 8 1 ++ stream e v (pre ++ le 8 1)
-  | .seq t, .list vs, pre => le 8 vs.length ++ streamAll t vs (pre ++ le 8 vs.length)
-  | .array _ t, .list vs, pre => le 8 vs.length ++ streamAll t vs (pre ++ le 8 vs.length)
-  | .tuple ts, .tuple vs, pre => streamFields ts vs pre
-  | .wrapper t, .wrap v, pre => stream t v pre
-  | .enum dw vars, .variant idx fs, pre =>
+  | .option t, .some v, st => le 8 1 ++ stream t v (absorb st (le 8 1))
+  | .result t _, .ok v, st => le 8 0 ++ stream t v (absorb st (le 8 0))
+  | .result _ e, .err v, st => le 8 1 ++ stream e v (absorb st (le 8 1))
+  | .seq t, .list vs, st => le 8 vs.length ++ streamAll t vs (absorb st (le 8 vs.length))
+  | .array _ t, .list vs, st => le 8 vs.length ++ streamAll t vs (absorb st (le 8 vs.length))
+  | .tuple ts, .tuple vs, st => streamFields ts vs st
+  | .wrapper t, .wrap v, st => stream t v st
+  | .enum dw vars, .variant idx fs, st =>
       match vars.get? idx with
-      | some (d, fts) => le dw.bytes d ++ streamFields fts fs (pre ++ le dw.bytes d)
+      | some (d, fts) => le dw.bytes d ++ streamFields fts fs (absorb st (le dw.bytes d))
       | none => []
-  | .uset t, .list vs, pre =>
-      le 8 vs.length ++ le 16 (sumSub t vs (pre ++ le 8 vs.length) 0)
-  | .umap k v, .list vs, pre =>
-      le 8 vs.length ++ le 16 (sumSub (Ty.pair k v) vs (pre ++ le 8 vs.length) 0)
+  | .uset t, .list vs, st =>
+      le 8 vs.length ++ le 16 (sumSub t vs (absorb st (le 8 vs.length)) 0)
+  | .umap k v, .list vs, st =>
+      le 8 vs.length ++ le 16 (sumSub (Ty.pair k v) vs (absorb st (le 8 vs.length)) 0)
   | _, _, _ => []
 /-- elements of a sequence, one after the other -/
-def streamAll : Ty → ValList → Bytes → Bytes
+def streamAll : Ty → ValList → σ → Bytes
   | _, .nil, _ => []
-  | t, .cons v vs, pre => stream t v pre ++ streamAll t vs (pre ++ stream t v pre)
+  | t, .cons v vs, st => stream t v st ++ streamAll t vs (absorb st (stream t v st))
 /-- fields of a tuple / struct / enum variant in declaration order -/
-def streamFields : TyList → ValList → Bytes → Bytes
-  | .cons t ts, .cons v vs, pre => stream t v pre ++ streamFields ts vs (pre ++ stream t v pre)
+def streamFields : TyList → ValList → σ → Bytes
+  | .cons t ts, .cons v vs, st => stream t v st ++ streamFields ts vs (absorb st (stream t v st))
   | _, _, _ => []
 /-- `combined = combined.wrapping_add(state.sub_hash(|sub| entry.stable_hash(sub)))` over the
-    entries in iteration order; `pre` is what `state` has absorbed (the length included) -/
-def sumSub : Ty → ValList → Bytes → Nat → Nat
+    entries in iteration order; `st` is the state of `state` (the length already absorbed) -/
+def sumSub : Ty → ValList → σ → Nat → Nat
   | _, .nil, _, acc => acc
-  | t, .cons v vs, pre, acc => sumSub t vs pre ((acc + H (pre ++ stream t v pre)) % M128)
+  | t, .cons v vs, st, acc => sumSub t vs st ((acc + finish (absorb st (stream t v st))) % M128)
 end
 
 end
+
+/-- streaming form of `sip128`: the `Hasher` struct (state, unprocessed tail, length) -/
+structure SipStream where
+  s : SipState
+  tail : Bytes
+  len : Nat
+
+def SipStream.init : SipStream :=
+  ⟨⟨0x736f6d6570736575, 0x646f72616e646f83, 0x6c7967656e657261, 0x7465646279746573⟩, [], 0⟩
+
+def SipStream.absorb (h : SipStream) (bs : Bytes) : SipStream :=
+  let (s, tail) := sipAbsorb h.s (h.tail ++ bs)
+  ⟨s, tail, h.len + bs.length⟩
+
+def SipStream.finish (h : SipStream) : Nat :=
+  let b : UInt64 := ((UInt64.ofNat h.len &&& 0xff) <<< 56) ||| leWord h.tail
+  let s := sipAbsorbWord h.s b
+  let s := { s with v2 := s.v2 ^^^ 0xee }
+  let s := sipRound (sipRound (sipRound (sipRound s)))
+  let h1 := sipXor s
+  let s := { s with v1 := s.v1 ^^^ 0xdd }
+  let s := sipRound (sipRound (sipRound (sipRound s)))
+  let h2 := sipXor s
+  h1.toNat + 2 ^ 64 * h2.toNat
 
 /-- `SeededStableHasherBuilder::new(seed).build_stable_hasher()`, `v.stable_hash(&mut h)`,
     `h.finish()` with `Sip128Hasher` -/
-def topStream (seed : Nat) (t : Ty) (v : Val) : Bytes := stream sip128 t v (le 8 seed)
+def seeded (seed : Nat) : SipStream := SipStream.init.absorb (le 8 seed)
 
-def hash128 (seed : Nat) (t : Ty) (v : Val) : Nat := sip128 (le 8 seed ++ topStream seed t v)
+def topStream (seed : Nat) (t : Ty) (v : Val) : Bytes :=
+  stream SipStream.absorb SipStream.finish t v (seeded seed)
+
+def hash128 (seed : Nat) (t : Ty) (v : Val) : Nat :=
+  ((seeded seed).absorb (topStream seed t v)).finish
+
+/-- `SipHasher::new()` (keys 0,0; the 128-bit variant's `v1 ^= 0xee` is folded into the constant),
+    `write(msg)`, `finish128()`, `u128::from(Hash128)` -/
+def sip128 (msg : Bytes) : Nat := (SipStream.init.absorb msg).finish
 
 /-! ## NaN-canonical representative of a value -/
 
